@@ -420,6 +420,10 @@ func c05(w *core.World, r *core.Report) {
 	ruleWriterReplacement(w, r)
 	r.Rule("R05.10", "snapshot and log stay joined under collection", 3)
 	ruleJointUnderGc(w, r)
+	r.Rule("R05.13", "the bytes a disk writer has written are credited to the segment that holds them: reported before the writer can rotate", 1)
+	ruleWriteCreditedBeforeRotation(w, r)
+	r.Rule("R05.14", "a finishing memory log writer removes only its own empty segment (by identity, never by position)", 1)
+	ruleFinishRemovesOwnSegment(w, r)
 }
 
 func ruleCheckThenAcquire(w *core.World, r *core.Report) {
@@ -1940,4 +1944,164 @@ func fieldStoredValues(w *core.World, fa *ssa.FieldAddr) []ssa.Value {
 		}
 	}
 	return out
+}
+
+// ---------------------------------------------------------------- R05.13 written bytes are credited to the segment that holds them
+
+// ruleWriteCreditedBeforeRotation: after a successful file write the writer tells
+// the data set "n more bytes in the segment that starts at w.left" (the
+// observer's Write). The index of segment sizes is what readers and the reported
+// range are computed from. The notification must go out before the writer can
+// rotate: once openFile has run, w.left names the new, empty segment, and the
+// bytes of the chunk that triggered the rotation are credited to it — the old
+// segment's right edge is n short (offsets reported valid cannot be read), the
+// new one n too long.
+func ruleWriteCreditedBeforeRotation(w *core.World, r *core.Report) {
+	f := fn(w, r, "(*pkg/store.AofRotater).write")
+	if f == nil {
+		return
+	}
+	// functions that (transitively) re-point the writer at another segment: they store AofRotater.left
+	movesLeft := map[*ssa.Function]bool{}
+	var fs []*ssa.Function
+	for _, g := range w.FuncsIn("pkg/store") {
+		fs = append(fs, g)
+	}
+	for changed := true; changed; {
+		changed = false
+		for _, g := range fs {
+			if movesLeft[g] {
+				continue
+			}
+			hit := false
+			for _, in := range core.OwnInstrs(g) {
+				if st, ok := in.(*ssa.Store); ok {
+					if fa, isFa := st.Addr.(*ssa.FieldAddr); isFa && core.FieldName(fa) == "left" && strings.HasSuffix(core.TypeName(fa.X.Type()), "AofRotater") {
+						hit = true
+					}
+				}
+				if ci, ok := in.(ssa.CallInstruction); ok {
+					if h := ci.Common().StaticCallee(); h != nil && movesLeft[h] {
+						hit = true
+					}
+				}
+			}
+			if hit {
+				movesLeft[g] = true
+				changed = true
+			}
+		}
+	}
+	bad := ""
+	var pos token.Pos = f.Pos()
+	credits := 0
+	okEnum := core.EnumPathsN(f.Blocks[0], 0, 200000, 1, func(p *core.Path) {
+		if bad != "" {
+			return
+		}
+		wrote, moved := false, false
+		for _, s := range pathSites(p) {
+			switch {
+			case s.Name == "(*os.File).Write":
+				wrote, moved = true, false
+			case s.Callee != nil && movesLeft[s.Callee] && s.Callee != f:
+				if wrote {
+					moved = true
+				}
+			case s.Common().IsInvoke() && s.Method == "Write" && strings.HasSuffix(core.TypeName(s.Common().Value.Type()), "Observer"):
+				if !wrote {
+					continue
+				}
+				credits++
+				a := s.Common().Args // an interface call: the receiver is not among them
+				if len(a) == 1 {
+					// the observer takes its arguments as ...interface{}
+					if els, ok := core.VariadicElems(a[0]); ok {
+						a = els
+					}
+				}
+				if len(a) < 1 || !core.IsFieldLoad(core.Unwrap(p.Resolve(a[0])), "AofRotater", "left") {
+					bad, pos = "the written bytes are reported for something other than the writer's current segment (w.left)", s.Pos()
+				}
+				if moved {
+					bad, pos = "the bytes just written are reported to the data set after the writer may have rotated: w.left then names the new segment, and the chunk that filled the old one is credited to the new one", s.Pos()
+				}
+			}
+		}
+	})
+	if !okEnum {
+		r.Undecided("AofRotater.write/credited-before-rotation", f.Pos(), "too many paths")
+		return
+	}
+	r.Check(bad == "" && credits > 0, "AofRotater.write/credited-before-rotation", pos, "%s (reports seen=%d)", bad, credits)
+}
+
+// ---------------------------------------------------------------- R05.14 a finishing memory writer removes only its own empty segment
+
+// ruleFinishRemovesOwnSegment: when a log writer of the memory backend finishes
+// without having received a byte, its empty segment is taken out of the list.
+// NewAofWritter publishes the successor's (still empty) segment before it closes
+// the predecessor, so "the last empty segment" is not "mine": removing by
+// position takes out the live writer's segment, and everything it appends later
+// is stored outside the index — a hole in the reported range. The removal must be
+// by identity: on every path of finishAof that changes the segment list, an
+// element of the list was compared equal to the finishing writer's own segment.
+func ruleFinishRemovesOwnSegment(w *core.World, r *core.Report) {
+	f := fn(w, r, "(*syncer.MemoryChannel).finishAof")
+	if f == nil {
+		return
+	}
+	isSegStore := func(in ssa.Instruction) bool {
+		st, ok := in.(*ssa.Store)
+		if !ok {
+			return false
+		}
+		fa, ok := st.Addr.(*ssa.FieldAddr)
+		return ok && core.FieldName(fa) == "aofSegs" && strings.HasSuffix(core.TypeName(fa.X.Type()), "MemoryChannel")
+	}
+	live := liveBlocks(f, isSegStore)
+	bad := ""
+	var pos token.Pos = f.Pos()
+	n := 0
+	okEnum := core.EnumPathsStop(f.Blocks[0], 0, 200000, 2, func(b *ssa.BasicBlock) bool { return !live[b] }, func(p *core.Path) {
+		if bad != "" {
+			return
+		}
+		var st ssa.Instruction
+		for _, in := range p.Instrs {
+			if isSegStore(in) {
+				st = in
+			}
+		}
+		if st == nil {
+			return
+		}
+		n++
+		own := func(v ssa.Value) bool {
+			c, ok := core.Unwrap(p.Resolve(v)).(*ssa.Call)
+			return ok && strings.HasSuffix(core.ResolveCall(c).Name, "MemoryAofWriter).currentSegment")
+		}
+		elem := func(v ssa.Value) bool {
+			ld, ok := core.Unwrap(p.Resolve(v)).(*ssa.UnOp)
+			if !ok || ld.Op != token.MUL {
+				return false
+			}
+			ia, ok := ld.X.(*ssa.IndexAddr)
+			return ok && core.IsFieldLoad(core.Unwrap(p.Resolve(ia.X)), "MemoryChannel", "aofSegs")
+		}
+		ident := false
+		for _, fct := range factsBefore(p, st) {
+			if c, ok := core.FactCmp(fct); ok && c.Op == token.EQL && ((own(c.X) && elem(c.Y)) || (own(c.Y) && elem(c.X))) {
+				ident = true
+			}
+		}
+		if !ident {
+			bad, pos = "the segment list is changed on a path that did not find the finishing writer's own segment in it (element == writer.currentSegment()): a removal by position takes out the successor's live, still empty segment", st.Pos()
+		}
+	})
+	if !okEnum {
+		r.Undecided("MemoryChannel.finishAof/removes-own-segment", f.Pos(), "too many paths")
+		return
+	}
+	r.Check(bad == "" && n > 0, "MemoryChannel.finishAof/removes-own-segment", pos, "%s (removing paths=%d)", bad, n)
 }
